@@ -1014,7 +1014,8 @@ def tree_hash():
                     except OSError:
                         pass
     for p in (os.path.join(REPO, "Cargo.toml"), os.path.join(REPO, "Cargo.lock")):
-        h.update(open(p, "rb").read())
+        if os.path.exists(p):
+            h.update(open(p, "rb").read())
     return h.hexdigest()[:24]
 
 
